@@ -174,11 +174,16 @@ def build(groups=True, media=True, privacy=True, profiles=True, enc=True, top=No
     L, YowStack, YowStackBuilder = mods()
     from yowsup.layers.axolotl import AxolotlSendLayer, AxolotlControlLayer, AxolotlReceivelayer
     Rec, App = make_layers()
-    prot = YowStackBuilder.getProtocolLayers(groups=groups, media=media, privacy=privacy, profiles=profiles)
-    layers = (Rec,)
     if enc:
-        layers += (AxolotlControlLayer, L.YowParallelLayer((AxolotlSendLayer, AxolotlReceivelayer)))
-    layers += (L.YowParallelLayer(prot), top or App)
+        # what the library's builder assembles for this module selection, minus the transport part (network .. logger)
+        core = YowStackBuilder.getCoreLayers()
+        alll = YowStackBuilder.getDefaultLayers(groups=groups, media=media, privacy=privacy, profiles=profiles)
+        if tuple(alll[:len(core)]) != tuple(core) or len(alll) != len(core) + 3:
+            raise core_mod().HarnessOutOfSync("getDefaultLayers() no longer has the shape core + control + (send, receive) + protocol group")
+        layers = (Rec,) + tuple(alll[len(core):]) + (top or App,)
+    else:
+        prot = YowStackBuilder.getProtocolLayers(groups=groups, media=media, privacy=privacy, profiles=profiles)
+        layers = (Rec, L.YowParallelLayer(prot), top or App)
     st = YowStack(layers, reversed=False)
     bottom = st.getLayer(0)
     app = st.getLayer(len(layers) - 1)
@@ -188,6 +193,10 @@ def build(groups=True, media=True, privacy=True, profiles=True, enc=True, top=No
     if enc:
         wire_manager(st, mgr)
     return st, bottom, app, mgr
+
+
+def core_mod():
+    return core
 
 
 def wire_manager(st, mgr):
